@@ -141,6 +141,8 @@ def handle (op : String) (args : List String) : Option String :=
       | none => some "IndexError"
   | "c19.slice", [nx, ny, nz, axis, idx] => do
       let nx ← nx.toNat?; let ny ← ny.toNat?; let nz ← nz.toNat?; let axis ← axis.toNat?; let idx ← idx.toNat?
+      -- axes outside 0..2 are C20's business (one-sided guard): no answer
+      if axis > 2 then none
       let g ← stackGrid nx ny nz
       match getSlice g axis idx with
       | some l => some (showList (l.map showLoft))
